@@ -260,6 +260,9 @@ class GeneratorProvider:
         if isinstance(generated_type, NoneType) or generated_type.accept(is_primitive_type):
             return
         self._generators[generated_type].add(generator)
+        # Must invalidate entire cache, because the new generator might also be
+        # suitable for types that were already requested.
+        self.clear_generator_cache()
 
     def get_all(self) -> dict[ProperType, OrderedSet[GenericAccessibleObject]]:
         """Get all generators."""
@@ -298,6 +301,9 @@ class GeneratorProvider:
             generator: The generator to add.
         """
         self._generators[proper_type].add(generator)
+        # Must invalidate entire cache, because the new generator might also be
+        # suitable for types that were already requested.
+        self.clear_generator_cache()
 
     @functools.lru_cache(maxsize=1024)
     def _sorted_generators(
